@@ -1,9 +1,78 @@
-import Lean.Data.Json
-/-! Driver handlers for property C04: `handle op request` answers one JSON request. -/
+import PydjinniModel.Drv.C05
+/-! Driver handlers for property C04 (name resolution). -/
 namespace Pydjinni.Drv.C04
-open Lean
+open Lean Pydjinni.Front Pydjinni.Drv.FrontJson Pydjinni.Drv.C05
 
-def handle (op : String) (_req : Json) : Except String Json :=
-  throw s!"unknown op {op}"
+def decodeReq (req : Json) : Except String (Cfg × List (APath × FileContent) × Registry × APath) := do
+  let cfg ← req.getObjVal? "cfg" >>= decodeCfg
+  let files ← req.getObjValAs? (Array Json) "files"
+  let fs ← files.toList.mapM decodeFile
+  let bs ← req.getObjValAs? (Array Json) "builtins"
+  let builtins ← bs.toList.mapM decodeDef
+  let root ← req.getObjValAs? String "root"
+  pure (cfg, fs, builtins, (parsePath root).2)
+
+structure ImplBinding where
+  file : String
+  pos : Pos
+  key : String
+
+/-- all data references of a program with their namespace -/
+def progRefs (p : List ProgFile) : List (String × List String × TypeRef) :=
+  (progDecls p).flatMap (fun (f, ns, d) => ((topTypes d).flatMap dataNodesT).map (fun t => (f, ns, t)))
+
+def spec (req : Json) : Except String Json := do
+  let (_, fs, builtins, _) ← decodeReq req
+  let impl ← req.getObjVal? "impl"
+  let kind ← impl.getObjValAs? String "kind"
+  let bj ← req.getObjValAs? (Array Json) "bindings"
+  let bindings ← bj.toList.mapM (fun j => do
+    let file ← j.getObjValAs? String "file"
+    let pos ← getPos j "p"
+    let key ← j.getObjValAs? String "key"
+    pure ({ file := file, pos := pos, key := key } : ImplBinding))
+  match programOf fs with
+  | none => pure (Json.mkObj [("holds", kind == "diags"), ("note", "syntax")])
+  | some prog =>
+    let pre := builtins ++ extRegistry fs
+    let dups := duplicateSites pre prog
+    if !dups.isEmpty then
+      let ok := kind == "raised" && (match decodeImplDiag impl with
+        | .ok d => d.cls == "TypeResolvingException" && dups.any (fun (f, p) => f == d.file && p == d.pos)
+        | .error _ => false)
+      pure (Json.mkObj [("holds", ok), ("note", "duplicate declaration"), ("why", strsJ (if ok then [] else ["duplicate-not-rejected"]))])
+    else
+      let reg := progRegistry pre prog
+      let idiags ← (if kind == "diags" then do
+          let a ← impl.getObjValAs? (Array Json) "diags"
+          a.toList.mapM decodeImplDiag
+        else pure [])
+      let bad := (progRefs prog).filterMap (fun (f, ns, t) =>
+        match t with
+        | .data name _ _ pos =>
+          let got := (bindings.find? (fun b => b.file == f && b.pos == pos)).map (·.key)
+          let unknownReported := idiags.any (fun d => d.cls == "TypeResolvingException" && d.file == f && d.pos == pos)
+          match lexicalLookup reg ns name with
+          | none =>
+            if got.isNone && unknownReported then none
+            else some (Json.mkObj [("file", f), ("p", posJ pos), ("name", name), ("expected", Json.null), ("got", optStrJ got), ("why", "unknown-not-rejected")])
+          | some d =>
+            if got == some d.key && !unknownReported then none
+            else some (Json.mkObj [("file", f), ("p", posJ pos), ("name", name), ("expected", d.key), ("got", optStrJ got), ("why", "wrong-binding")])
+        | _ => none)
+      pure (Json.mkObj [("holds", bad.isEmpty), ("bad", Json.arr bad.toArray),
+        ("why", strsJ (bad.filterMap (fun b => (b.getObjValAs? String "why").toOption))), ("refs", (progRefs prog).length)])
+
+def handle (op : String) (req : Json) : Except String Json :=
+  match op with
+  | "c04.bindings" => do
+    let (cfg, fs, builtins, root) ← decodeReq req
+    let (o, res, reg, imported) := frontWithBindings cfg { files := fs } builtins root
+    pure (Json.mkObj [("outcome", outcomeJ o),
+      ("bindings", Json.arr (res.map (fun ((f, p), d) => Json.mkObj [("file", f), ("p", posJ p), ("key", d.key)])).toArray),
+      ("decls", strsJ (reg.map (·.key))),
+      ("imported", strsJ (imported.map showPath))])
+  | "c04.spec" => spec req
+  | _ => throw s!"unknown op {op}"
 
 end Pydjinni.Drv.C04
